@@ -356,6 +356,133 @@ theorem mean_is_average_mass (f : Formula) (o : Opts) (t : Dist Rat) (p d m : Ra
   simp only [hneu]
   exact normalised_elements q.1 (hel q hq) e he
 
+/-- key of the first entry of an isotope list: the monoisotopic (most abundant) isotope -/
+def headKey (isos : Dist Rat) : Rat := (isos.head?.map (·.1)).getD 0
+
+theorem massOf_mono (a b : Nat) (h : a ≤ b) : massOf a ≤ massOf b := by
+  unfold massOf
+  apply div_le_div_of_nonneg_right
+  · exact_mod_cast h
+  · unfold massScale; norm_num
+
+/-- **lightest_mass_is_monoisotopic**: for C,H,N,O,S,P (and Cl, Br) the smallest key of the element's mass-view isotope list is
+its first key, the monoisotopic mass `constants.ISOTOPIC_ATOMIC_MASSES[element]`. -/
+theorem lightest_mass_is_monoisotopic (k : Key) (hk : k ∈ [keyC, keyH, keyN, keyO, keyS, keyP, keyCl, keyBr])
+    (e : Entry) (he : lookupEntry k = some e) :
+    IsMin (massIsotopes e) (headKey (massIsotopes e)) ∧ headKey (massIsotopes e) = monoMass e := by
+  have h := lightest_is_monoisotopic_CHNOSP.1 k hk
+  unfold lightestFirst at h
+  rw [he] at h
+  simp only [] at h
+  split at h
+  · next i0 t heq =>
+    simp only [Bool.and_eq_true, beq_iff_eq, List.all_eq_true, decide_eq_true_eq] at h
+    obtain ⟨h0, hall⟩ := h
+    have hhead : headKey (massIsotopes e) = monoMass e := by
+      unfold headKey massIsotopes monoMass
+      rw [heq]; simp [h0]
+    refine ⟨⟨⟨(massOf i0.2.1, abOf i0.2.2), ?_, ?_⟩, ?_⟩, hhead⟩
+    · unfold massIsotopes; rw [heq]; simp
+    · rw [hhead]; unfold monoMass; rw [h0]
+    · intro q hq
+      unfold massIsotopes at hq
+      simp only [List.mem_map] at hq
+      obtain ⟨i, hi, rfl⟩ := hq
+      rw [hhead]
+      exact massOf_mono _ _ (hall i (heq ▸ hi)).1
+  · cases h
+
+/-- **lightest_peak_is_monoisotopic_mass**: for every composition over C,H,N,O,S,P (Cl, Br), any counts and e/p/n entries,
+un-pruned and un-rounded, the lightest peak of the returned mass-view pattern is
+`Σ count·(monoisotopic mass) + delta_mass + particle_mass_offset` — the monoisotopic mass of the composition including its
+electrons, protons and neutrons. -/
+theorem lightest_peak_is_monoisotopic_mass (f : Formula) (o : Opts) (t : Dist Rat) (p d m : Rat) (out : Dist Rat)
+    (hraw : rawDistribution f o = .ok (t, p, d, m)) (hfin : finishDistribution o t p d m = .ok out)
+    (hfl : o.floor = none) (hmi : o.maxIsotopes = none) (hct : o.convMinAbundanceThreshold = none)
+    (hmt : o.minAbundanceThreshold = none) (hres : o.resolution = none) (hneu : o.useNeutronCount = false)
+    (hp : o.precision = none)
+    (hel : ∀ q ∈ cleanFormula f, q.1 ∈ [keyC, keyH, keyN, keyO, keyS, keyP, keyCl, keyBr]) :
+    ∃ L, resolve o (cleanFormula f) = some L ∧ IsMin out (lightSum L headKey + d + p) := by
+  obtain ⟨L, hL, h⟩ := lightest_peak f o t p d m out hraw hfin hfl hmi hct hmt hres hneu hp
+  refine ⟨L, hL, h headKey ?_⟩
+  intro x hx
+  obtain ⟨q, hq, e, he, hxe⟩ := resolve_mem o _ L hL x hx
+  rw [hxe]
+  unfold isosOf
+  simp only [hneu]
+  exact (lightest_mass_is_monoisotopic q.1 (hel q hq) e he).1
+
+
+/-- **conv_binned**: if each factor is the binned (push-forward along an additive `φ`) image of a finer factor, the convolution
+is the binned image of the finer convolution. -/
+theorem conv_binned {κ κ₂ : Type} [DecidableEq κ] [Add κ] [DecidableEq κ₂] [Add κ₂] (φ : κ → κ₂)
+    (hφ : ∀ a b, φ (a + b) = φ a + φ b) (d1 d2 : Dist κ) (e1 e2 : Dist κ₂)
+    (h1 : ∀ g, integral e1 g = integral d1 (fun k => g (φ k))) (h2 : ∀ g, integral e2 g = integral d2 (fun k => g (φ k)))
+    (g : κ₂ → Rat) :
+    integral (convolve id none none e1 e2) g = integral (convolve id none none d1 d2) (fun k => g (φ k)) := by
+  rw [integral_convolve id none e1 e2 g (allKept_none _ _), integral_convolve id none d1 d2 _ (allKept_none _ _), h1]
+  apply integral_congr
+  intro q _
+  rw [h2]
+  simp only [id, hφ]
+
+/-- **elemental_binned**: the same for `count` atoms of one element (`_calculate_elemental_distribution`, floor off) -/
+theorem elemental_binned {κ κ₂ : Type} [DecidableEq κ] [Add κ] [DecidableEq κ₂] [Add κ₂] (φ : κ → κ₂)
+    (hφ : ∀ a b, φ (a + b) = φ a + φ b) (isos d : Dist κ) (isos' d' : Dist κ₂)
+    (hi : ∀ g, integral isos' g = integral isos (fun k => g (φ k))) (n : Nat)
+    (hd : ∀ g, integral d' g = integral d (fun k => g (φ k))) (g : κ₂ → Rat) :
+    integral (elementalFrom none isos' n d') g = integral (elementalFrom none isos n d) (fun k => g (φ k)) := by
+  induction n generalizing d d' g with
+  | zero => exact hd g
+  | succ n ih =>
+    simp only [elementalFrom]
+    exact ih _ _ (fun g => conv_binned φ hφ d isos d' isos' hd hi g) g
+
+/-- joint (mass, nominal neutron offset) isotope list of a table entry -/
+def jointIsotopes (e : Entry) : Dist (Rat × Rat) :=
+  match e.2.2 with
+  | [] => []
+  | i0 :: t => (i0 :: t).map (fun i => ((massOf i.2.1, (((i.1 : Int) - (i0.1 : Int) : Int) : Rat)), abOf i.2.2))
+
+/-- **neutron_view_is_binned_mass_view**: for every element of the table and every count, both the mass view and the
+neutron-offset view of `_calculate_elemental_distribution` (floor off) are marginals of one joint distribution over
+(mass, nominal offset): the neutron-offset view is the joint — hence the mass — view binned by nominal mass offset. -/
+theorem neutron_view_is_binned_mass_view (e : Entry) (n : Nat) (g : Rat → Rat) :
+    integral (elemental none (offsetIsotopes e) n) g =
+      integral (elementalFrom none (jointIsotopes e) n [(((0 : Rat), (0 : Rat)), 1)]) (fun k => g k.2) ∧
+    integral (elemental none (massIsotopes e) n) g =
+      integral (elementalFrom none (jointIsotopes e) n [(((0 : Rat), (0 : Rat)), 1)]) (fun k => g k.1) := by
+  have hadd1 : ∀ a b : Rat × Rat, (a + b).1 = a.1 + b.1 := fun a b => rfl
+  have hadd2 : ∀ a b : Rat × Rat, (a + b).2 = a.2 + b.2 := fun a b => rfl
+  constructor
+  · unfold elemental
+    apply elemental_binned (fun k : Rat × Rat => k.2) hadd2
+    · intro g
+      unfold offsetIsotopes jointIsotopes
+      cases e.2.2 with
+      | nil => rfl
+      | cons i0 t =>
+        simp only []
+        generalize (i0 :: t) = l
+        induction l with
+        | nil => rfl
+        | cons i r ih => simp only [List.map_cons, integral_cons, ih]
+    · intro g; simp [integral]
+  · unfold elemental
+    apply elemental_binned (fun k : Rat × Rat => k.1) hadd1
+    · intro g
+      unfold massIsotopes jointIsotopes
+      cases e.2.2 with
+      | nil => rfl
+      | cons i0 t =>
+        simp only []
+        generalize (i0 :: t) = l
+        induction l with
+        | nil => rfl
+        | cons i r ih => simp only [List.map_cons, integral_cons, ih]
+    · intro g; simp [integral]
+
+
 /-! ## non-vacuity: concrete inputs satisfying the hypotheses -/
 
 /-- C2 H4 e-1 (the witness of the repaired particle-offset defect) and C2.5 H4 S1 p1 -/
